@@ -74,6 +74,7 @@ type c12State struct {
 	rows   []*tabular.Row
 	log    []string
 	reads  int64
+	serial int
 }
 
 func (s *c12State) say(f string, a ...interface{}) { s.log = append(s.log, fmt.Sprintf(f, a...)) }
@@ -122,9 +123,77 @@ func (s *c12State) addCellOwner(row *tabular.Row, idx int, label string, snapsho
 	return s.addOwner(o)
 }
 
+// values whose identity is not their content: two closures of one function literal, method values of two
+// receivers, distinct pointers to equal structs, equal maps and slices with storage of their own.  The value a get
+// returns must be the one set last - the very object, not one that looks like it.
+type c12Recv struct{ n int }
+
+func (x *c12Recv) Get() int { return x.n }
+
+func c12Closure(n int) func() int { return func() int { return n } }
+
+// c12SameValue compares what a get returned with what the reference map holds: by identity for reference kinds
+// (functions are told apart by calling them: each returns the serial it was made with), by content otherwise.
+func c12SameValue(a, b interface{}) bool {
+	if a == nil || b == nil {
+		return a == nil && b == nil
+	}
+	va, vb := reflect.ValueOf(a), reflect.ValueOf(b)
+	if va.Type() != vb.Type() {
+		return false
+	}
+	switch va.Kind() {
+	case reflect.Func:
+		fa, ok1 := a.(func() int)
+		fb, ok2 := b.(func() int)
+		return ok1 && ok2 && fa() == fb()
+	case reflect.Ptr, reflect.Map, reflect.Chan:
+		return va.Pointer() == vb.Pointer()
+	case reflect.Slice:
+		if va.Len() != vb.Len() || (va.Len() > 0 && va.Pointer() != vb.Pointer()) {
+			return false
+		}
+	}
+	return reflect.DeepEqual(a, b)
+}
+
+// c12Describe prints a value for the history without any address in it.
+func c12Describe(v interface{}) string {
+	if v == nil {
+		return "nil"
+	}
+	switch x := v.(type) {
+	case func() int:
+		return fmt.Sprintf("func() int returning %d (one of many closures of the same literal / method values of the same method)", x())
+	case *c12KS:
+		return fmt.Sprintf("a pointer of its own to %#v", *x)
+	case *c12Recv:
+		return fmt.Sprintf("a pointer of its own to %#v", *x)
+	case map[string]int:
+		return fmt.Sprintf("a map of its own %v", x)
+	case chan int:
+		return "a channel of its own"
+	}
+	return fmt.Sprintf("%#v", v)
+}
+
 func (s *c12State) value() interface{} {
 	r := s.r
-	switch r.Intn(9) {
+	s.serial++
+	switch r.Intn(14) {
+	case 9:
+		return c12Closure(s.serial)
+	case 10:
+		return (&c12Recv{s.serial}).Get
+	case 11:
+		return &c12KS{r.Intn(2)}
+	case 12:
+		return map[string]int{"k": r.Intn(2)}
+	case 13:
+		if r.Bool() {
+			return make(chan int)
+		}
+		return &c12Recv{r.Intn(2)}
 	case 0:
 		return nil
 	case 1:
@@ -149,9 +218,9 @@ func (s *c12State) value() interface{} {
 func (s *c12State) set(o *c12Owner, key, val interface{}, via string) (string, string) {
 	accs := o.acc()
 	a := accs[s.r.Intn(len(accs))]
-	s.say("%s.SetProperty(%s, %#v)%s", o.name, c12KeyName(key), val, via)
+	s.say("%s.SetProperty(%s, %s)%s", o.name, c12KeyName(key), c12Describe(val), via)
 	if err := a.SetProperty(key, val); err != nil {
-		return "SetProperty-error", fmt.Sprintf("%s.SetProperty(%s, %#v) returned %v", o.name, c12KeyName(key), val, err)
+		return "SetProperty-error", fmt.Sprintf("%s.SetProperty(%s, %s) returned %v", o.name, c12KeyName(key), c12Describe(val), err)
 	}
 	if val == nil {
 		delete(o.m, key)
@@ -168,7 +237,7 @@ func (s *c12State) check() (string, string) {
 				got := a.GetProperty(k)
 				s.reads++
 				want := o.m[k]
-				if !reflect.DeepEqual(got, want) {
+				if !c12SameValue(got, want) {
 					kind := "owner"
 					switch {
 					case o.cellCopy != nil:
@@ -181,7 +250,7 @@ func (s *c12State) check() (string, string) {
 							kind = "column-via-earlier-handle"
 						}
 					}
-					return "get-mismatch:" + kind, fmt.Sprintf("%s (accessor %d).GetProperty(%s) = %#v, the reference map says %#v", o.name, ai, c12KeyName(k), got, want)
+					return "get-mismatch:" + kind, fmt.Sprintf("%s (accessor %d).GetProperty(%s) = %s, the value most recently set is %s", o.name, ai, c12KeyName(k), c12Describe(got), c12Describe(want))
 				}
 			}
 		}
